@@ -905,6 +905,43 @@ func (p *idxProver) collect(f *ssa.Function) []idxOb {
 				lows = idxStr(x.Low)
 			}
 			out = append(out, idxOb{fn: f, in: in, kind: "slice", construct: key("slice", nameOf(x.X)+"["+lows+":"+hi+"]"), ok: ok, detail: d})
+		case *ssa.FieldAddr:
+			// dereference of a pointer that a library call / map lookup may deliver as nil
+			var src string
+			var okFlag ssa.Value
+			switch b := x.X.(type) {
+			case *ssa.Call:
+				switch calleeName(b) {
+				case "(*container/list.List).Back", "(*container/list.List).Front", "(*container/list.Element).Next", "(*container/list.Element).Prev":
+					src = strings.TrimPrefix(calleeName(b), "(*container/list.")
+				}
+			case *ssa.Extract:
+				if lk, isLk := b.Tuple.(*ssa.Lookup); isLk && lk.CommaOk && b.Index == 0 {
+					if _, isPtr := b.Type().Underlying().(*types.Pointer); isPtr {
+						src = "map lookup"
+						okFlag = extractOf(lk, 1)
+					}
+				}
+			case *ssa.Lookup:
+				if _, isMap := b.X.Type().Underlying().(*types.Map); isMap {
+					if _, isPtr := b.Type().Underlying().(*types.Pointer); isPtr {
+						src = "map lookup"
+					}
+				}
+			}
+			if src == "" {
+				return
+			}
+			base := x.X
+			okN := factHolds(in, func(cond ssa.Value, truth bool) bool {
+				if okFlag != nil && cond == okFlag && truth {
+					return true
+				}
+				is, pol := nonNilTest(cond, base)
+				return is && pol == truth
+			})
+			out = append(out, idxOb{fn: f, in: in, kind: "nilderef", construct: key("nilderef", src+"."+fieldName(x.X.Type(), x.Field)), ok: okN,
+				detail: map[bool]string{true: "the pointer is tested (non-nil / found) on every path to this dereference", false: "dereference of the result of " + src + ", which is nil when the collection is empty / the key is absent, without a dominating test"}[okN]})
 		case *ssa.TypeAssert:
 			if x.CommaOk {
 				return
